@@ -65,6 +65,10 @@ CHECKS = {
          "Exhaustive over enum definitions of 1..2 (3) values from a 14-name pool (case twins, underscores, digits, Rust keywords, `Other_`) x {none, rust} x 25 strings (every pool value, near-misses, empty, non-ASCII, very long, `Other`): each schema value must deserialise to a non-Other variant of its own and back to exactly its name, every other string to Other(s) with Ser(Deser(s)) = s; distinct values give distinct variants; non-strings are rejected.",
          "Trusted: TLC, the Camel table for the pool, rustc + serde; variant identity is read from Debug output.",
          "DESIGN.md §5 C10", "model_checking"),
+ "C04": ("TLA+ reference of variables on the wire (InputsExec.tla: assignments, explicit-null form, skip_serializing_none form, @oneOf, nested / recursive inputs) evaluated by TLC; every (declaration set, assignment) replayed through compiled generated Variables: expressibility by deserialising the intended value, then to_value(build_query) compared with the reference",
+         "For each of 9 base types (5 built-in scalars, custom scalar, enum, a nested / recursive input object with keyword and mixed-case member names, an @oneOf input with scalar / list / enum / object / awkwardly named members) an operation declares a variable of every type expression up to list depth 2 (3); assignments are the baseline, every single-position alternative (None at each nullable member at two nesting levels, list lengths 0/1/3, each @oneOf member, enum values, scalar samples) and all-None. The serialised variables must equal the specification's wire form exactly - key sets, explicit nulls without skip_serializing_none, omissions with it - under both normalizations and both schema formats.",
+         "Trusted: TLC, projection, rustc + serde. Nested objects are cut by Fuel (2 / 3 levels).",
+         "DESIGN.md §5 C04", "model_checking"),
 }
 
 
